@@ -395,6 +395,12 @@ func zeroOf(t types.Type) string {
 
 func typeTag(t types.Type) int {
 	s := types.TypeString(t, nil)
+	switch s {
+	case "[]map[string]any", "[]map[string]interface{}":
+		return 7 // TOML array of tables
+	case "map[any]any", "map[interface{}]interface{}":
+		return 8 // YAML map with non-string keys
+	}
 	h := 0
 	for _, c := range s {
 		h = (h*31 + int(c)) % 1000003
